@@ -7,7 +7,7 @@ from . import base
 TRUSTED_BASE = base.TRUSTED_BASE + ['the float arithmetic of the two search loops is exact for dyadic inputs with <=20 fraction bits and |k|<2^40 (every intermediate is a dyadic with <=63 significant bits... below 2^53 in magnitude)']
 ASSUMPTIONS = base.ASSUMPTIONS + ['reading: "fewest word bits with non-negative integer length" is literal - an unsigned 0 infers fxp-u0/0',
                                   'unsigned inference is exercised with non-negative values only (a negative value cannot be exact in an unsigned format)',
-                                  'a given n_frac is non-negative when sizes are inferred (1 << n_frac)']
+                                  ]
 RULE = ('INF lines: scalars and arrays (<=4 elements) of dyadic k/2^f, f<=20, |k|<2^40, heavy on +-2^k, 2^k-LSB, -2^k-LSB; signedness None/True/False; each subset of {n_word, n_frac, n_int} given or left unspecified; '
         'exhaustive k in [-2^6,2^6] (quick) / [-2^9,2^9] (thorough), f<=4 / <=6; INC lines: random non-dyadic doubles (capped case, relational only). non-trivial = value is not an integer or is negative or more than one element')
 TECHNIQUE = 'Lean 4 theorems (fraction-bit loop = least i with v*2^i integral; integer-bit loop = least width holding the scaled extremes; inferred format exact and minimal; given-size cases; cap) + verified relational checker (exact + minimal) on the implementation'
@@ -126,7 +126,9 @@ def generate(tier, rng):
         if mode == 'w':
             w = str(max(1 + int(signed), nw + rng.choice([-3, -1, 0, 0, 1, 4])))
         elif mode == 'f':
-            f_ = str(max(0, nf + rng.choice([-2, -1, 0, 0, 1, 3])))
+            # a given fraction length: near the exact one, far beyond it (the word reaches the 64-bit cap), or negative
+            f_ = str(rng.choice([max(0, nf + rng.choice([-2, -1, 0, 0, 1, 3])), max(0, nf + rng.choice([-2, -1, 0, 0, 1, 3])),
+                                 rng.randint(nf, max(nf, 64 - int(signed) - max(ni, 0))), 64 - int(signed) - max(ni, 0), -rng.randint(1, 6)]))
         elif mode == 'iw':
             w = str(nw + rng.choice([0, 0, 1, 2])); i = str(max(ni, 0) + rng.choice([0, 0, 1]))
         elif mode == 'if':
